@@ -24,6 +24,25 @@ Verdict(x) ==
       o == S!OutcomeP(FALSE, "v3", HasAuth, HasPriv, s, AsDgram(x)) IN
   IF o = "deliver" THEN "deliver" ELSE "drop"
 ASSUME \A x \in Matrix : PrintT(ToJson([forgery |-> x, verdict |-> Verdict(x)]))
+(* Near-miss MACs: the correct HMAC-96 with a small structured difference.  A comparison that looks at part of   *)
+(* the field, or folds the octet differences with an operator under which they can cancel (xor, sum), or compares  *)
+(* a permutation of the field, accepts some of these although each of them is simply "not the MAC":               *)
+(*   bits(i)      one bit of octet i flipped, for every octet                                                      *)
+(*   pair(i, j)   the same bit flipped in octets i and j (differences cancel under xor, also across 32-bit words)   *)
+(*   sum(i, j)    octet i incremented, octet j decremented (differences cancel under addition)                     *)
+(*   tri(i,j,k)   masks 1, 2, 3 xored into three octets of different words                                        *)
+(*   rot(k)       the MAC rotated by k octets; rev: reversed                                                       *)
+(*   head(k)      only the first k octets correct, the rest zero; tail(k): only the last k correct                 *)
+NearMacs ==      { [kind |-> "bits", i |-> i, j |-> 0, k |-> 0] : i \in 0..11 }
+            \cup { [kind |-> "pair", i |-> i, j |-> j, k |-> 0] : i \in 0..11, j \in 0..11 }
+            \cup { [kind |-> "sum", i |-> i, j |-> j, k |-> 0] : i \in 0..11, j \in 0..11 }
+            \cup { [kind |-> "tri", i |-> i, j |-> 4 + i, k |-> 8 + i] : i \in 0..3 }
+            \cup { [kind |-> "rot", i |-> 0, j |-> 0, k |-> k] : k \in 1..11 }
+            \cup { [kind |-> "rev", i |-> 0, j |-> 0, k |-> 0] }
+            \cup { [kind |-> "head", i |-> 0, j |-> 0, k |-> k] : k \in 1..11 }
+            \cup { [kind |-> "tail", i |-> 0, j |-> 0, k |-> k] : k \in 1..11 }
+NearKept == { x \in NearMacs : x.kind \in {"pair", "sum"} => x.i < x.j }
+ASSUME \A x \in NearKept : PrintT(ToJson([nearmac |-> x, verdict |-> IF HasAuth THEN "drop" ELSE "deliver"]))
 (* design-level statement of C10 over the whole matrix *)
 ASSUME \A x \in Matrix :
          (HasAuth /\ x.pdu = "response" /\ Verdict(x) = "deliver") =>
